@@ -186,6 +186,7 @@ package bcl
 //@ func lexQuote
 //@   implements stateFn
 //@   ensures [C20] a_string_token_spans_exactly_the_literal: (g.ev_send_tokens == old(g.ev_send_tokens) + 1 && g.ev_sent_tokens.typ == tSTR) ==> g.ev_sent_tokens.pos == quoteEnd(g.ev_src_inputs, old(l.posShift + l.pos)) && result == fn("lexStart")
+//@   assert [C20,C17] a_string_is_refused_as_unterminated_only_at_a_line_feed_or_the_end: at fail#1: quoteEnd(g.ev_src_inputs, old(l.posShift + l.pos)) < 0
 //@   ensures [C20] an_unterminated_string_is_an_error: quoteEnd(g.ev_src_inputs, old(l.posShift + l.pos)) < 0 ==> g.lx_fin
 //@   ensures [C20] the_literal_starts_at_its_opening_quote: l.posShift + l.start == old(l.posShift + l.start) || g.lx_fin || (g.ev_send_tokens == old(g.ev_send_tokens) + 1 && l.start == l.pos)
 //@   loop 1 invariant invs(l) && !g.lx_fin && !g.lx_err && g.ev_send_tokens == old(g.ev_send_tokens) && l.posShift + l.start == old(l.posShift + l.start)
